@@ -24,6 +24,9 @@ CLAIMS = {
  "C10": ("Generated pool states and selection sequences (rapid, incl. a state machine with state changes between selections) plus an exhaustive sweep of availability vectors for small pools, judged against a reference availability set and the per-policy contracts (earliest, once-per-cycle, IP-stable under departures, fewest connections, membership).",
          "Upstream/peer state is constructed through an overlay-injected export shim in package l4proxy; random policies are judged on membership only, over repeated draws.",
          "property-based testing (rapid, stateful) + exhaustive availability vectors; reference-model oracle"),
+ "C12": ("Generated PROXY v1/v2 headers from an independent encoder pushed through the handler with generated segmentation and allow lists; a recorder, ip matchers and placeholders behind it are compared with the declared (or real) addresses and the payload; the sending side is parsed by an independent parser on a loopback upstream, including the sender->receiver composition. Every header split point is enumerated for fixed addresses.",
+         "Independent encoder/parser written from the HAProxy specification; github.com/mastercactapus/proxyprotocol is the library under the handler (its refusal of TLVs is accepted as fail-closed).",
+         "property-based testing (rapid) + enumeration of split points; independent encoder/parser as reference"),
 }
 NOT_YET = "check not built yet in this session (planned, see DESIGN.md); not claimed until it is"
 
